@@ -7,6 +7,7 @@ import (
 	"os"
 	"strings"
 	"sync"
+	"sync/atomic"
 	"time"
 
 	"github.com/yandex/mysync/internal/config"
@@ -26,6 +27,7 @@ type c18Spec struct {
 	RepState []string `json:"replica_state"`    // semisync stopped not_semisync no_report
 	StartRO  string   `json:"master_initially"` // writable read_only super_read_only
 	Then     []int    `json:"master_usage_later"`
+	ROFails  bool     `json:"read_only_statements_fail_in_the_first_phase"` // every SET read_only on the master fails with 1205 until the usage changes
 }
 
 const (
@@ -45,6 +47,7 @@ func c18Gen(seed int64, idx int) c18Spec {
 	for i := 0; i < 2; i++ {
 		sp.Then = append(sp.Then, c18Levels[r.Intn(len(c18Levels))])
 	}
+	sp.ROFails = r.Intn(4) == 0
 	return sp
 }
 
@@ -243,10 +246,24 @@ func c18Run(u *Unit) {
 			if r.Path == NS+"/low_space" && (r.Op == "set" || r.Op == "create") {
 				lowMu.Lock()
 				lastFlag = r.Data
+				lc := lastChange
 				lowMu.Unlock()
+				// the flag follows the last change: it is written after a successful mode change and says what that change implies
+				if isDaemon(s, r.Client) && r.Data != lc {
+					sc.Violate("C18", "low-space-flag-written-without-matching-mode-change", fmt.Sprintf("%s wrote low_space=%s while the last successful mode change of the master by the guard implies %q (empty = there was none)", r.Client, r.Data, lc))
+				}
 			}
 		})
+		var roFailOn atomic.Bool
+		roFailOn.Store(sp.ROFails)
 		w.Lock()
+		w.Fault = func(c *world.StmtCtx) world.FaultAction {
+			if roFailOn.Load() && c.Host == master && (c.Class == "set_ro" || c.Class == "set_ro_nosuper") {
+				sc.Cover("read-only-statement-failed")
+				return world.FaultAction{Kind: "fail", Errno: 1205}
+			}
+			return world.FaultAction{}
+		}
 		w.AfterStmt = append(w.AfterStmt, func(w *world.World, c *world.StmtCtx) {
 			if c.Host != master || !strings.HasPrefix(c.Caller, "mysync_") {
 				return
@@ -284,6 +301,7 @@ func c18Run(u *Unit) {
 		s.Start()
 		time.Sleep(32 * time.Second)
 		for _, v := range sp.Then {
+			roFailOn.Store(false)
 			du(master, v)
 			time.Sleep(27 * time.Second)
 		}
